@@ -9,6 +9,7 @@ import (
 	"sort"
 	"strings"
 
+	"golang.org/x/tools/go/packages"
 	"golang.org/x/tools/go/ssa"
 )
 
@@ -657,48 +658,126 @@ func (c *Ctx) switchFieldTable(rel, name string) (tab map[string]string, defErr 
 	if fd == nil {
 		return nil, false
 	}
+	tab, defErr = switchFieldTableIn(p, fd)
+	if tab != nil {
+		return
+	}
+	// the dispatch may live in a helper of the same package that the method calls
+	var callees []*ast.FuncDecl
 	ast.Inspect(fd.Body, func(n ast.Node) bool {
-		sw, ok := n.(*ast.SwitchStmt)
-		if !ok || tab != nil {
+		call, ok := n.(*ast.CallExpr)
+		if !ok {
 			return true
 		}
-		sel, ok := sw.Tag.(*ast.SelectorExpr)
-		if !ok || sel.Sel.Name != "Type" {
+		var id *ast.Ident
+		switch f := call.Fun.(type) {
+		case *ast.Ident:
+			id = f
+		case *ast.SelectorExpr:
+			id = f.Sel
+		}
+		if id == nil {
 			return true
 		}
-		tab = map[string]string{}
-		for _, st := range sw.Body.List {
-			cl := st.(*ast.CaseClause)
-			field := ""
-			for _, b := range cl.Body {
-				ast.Inspect(b, func(m ast.Node) bool {
-					if se, ok := m.(*ast.SelectorExpr); ok && field == "" {
-						if id, ok := se.X.(*ast.Ident); ok && p.TypesInfo.Uses[id] == p.TypesInfo.Uses[sel.X.(*ast.Ident)] && se.Sel.Name != "Type" {
-							field = se.Sel.Name
-						}
+		if fn, ok := p.TypesInfo.Uses[id].(*types.Func); ok && fn.Pkg() == p.Types {
+			for _, file := range p.Syntax {
+				for _, d := range file.Decls {
+					if hd, ok := d.(*ast.FuncDecl); ok && p.TypesInfo.Defs[hd.Name] == fn && hd.Body != nil {
+						callees = append(callees, hd)
 					}
-					return true
-				})
-			}
-			if cl.List == nil {
-				for _, b := range cl.Body {
-					if r, ok := b.(*ast.ReturnStmt); ok && len(r.Results) > 0 {
-						last := r.Results[len(r.Results)-1]
-						if id, ok := last.(*ast.Ident); !ok || id.Name != "nil" {
-							defErr = true
-						}
-					}
-				}
-				continue
-			}
-			for _, e := range cl.List {
-				if tv, ok := p.TypesInfo.Types[e]; ok && tv.Value != nil {
-					tab[tv.Value.ExactString()] = field
 				}
 			}
 		}
 		return true
 	})
+	for _, hd := range callees {
+		if t, d := switchFieldTableIn(p, hd); t != nil {
+			return t, d
+		}
+	}
+	return nil, false
+}
+
+// switchFieldTableIn: the `switch recv.Type` of one function body. An unknown
+// type is rejected either by a default clause returning a non-nil last result
+// or, when there is no default clause, by the statement following the switch
+// being such a return.
+func switchFieldTableIn(p *packages.Package, fd *ast.FuncDecl) (tab map[string]string, defErr bool) {
+	nonNilReturn := func(st ast.Stmt) bool {
+		r, ok := st.(*ast.ReturnStmt)
+		if !ok || len(r.Results) == 0 {
+			return false
+		}
+		last := r.Results[len(r.Results)-1]
+		id, isID := last.(*ast.Ident)
+		return !isID || id.Name != "nil"
+	}
+	var visitList func(list []ast.Stmt)
+	visitList = func(list []ast.Stmt) {
+		for k, st := range list {
+			sw, ok := st.(*ast.SwitchStmt)
+			if !ok || tab != nil {
+				if blk, isB := st.(*ast.BlockStmt); isB {
+					visitList(blk.List)
+				}
+				continue
+			}
+			sel, ok := sw.Tag.(*ast.SelectorExpr)
+			if !ok || sel.Sel.Name != "Type" {
+				continue
+			}
+			recv, ok := sel.X.(*ast.Ident)
+			if !ok {
+				continue
+			}
+			tab = map[string]string{}
+			hasDefault := false
+			for _, cs := range sw.Body.List {
+				cl := cs.(*ast.CaseClause)
+				field := ""
+				for _, b := range cl.Body {
+					ast.Inspect(b, func(m ast.Node) bool {
+						if se, ok := m.(*ast.SelectorExpr); ok && field == "" {
+							if id, ok := se.X.(*ast.Ident); ok && p.TypesInfo.Uses[id] == p.TypesInfo.Uses[recv] && se.Sel.Name != "Type" {
+								field = se.Sel.Name
+							}
+						}
+						return true
+					})
+				}
+				if cl.List == nil {
+					hasDefault = true
+					for _, b := range cl.Body {
+						if nonNilReturn(b) {
+							defErr = true
+						}
+					}
+					continue
+				}
+				for _, e := range cl.List {
+					if tv, ok := p.TypesInfo.Types[e]; ok && tv.Value != nil {
+						tab[tv.Value.ExactString()] = field
+					}
+				}
+			}
+			if !hasDefault && k+1 < len(list) && nonNilReturn(list[k+1]) {
+				// every case must itself return, otherwise known types would fall into the error
+				allReturn := true
+				for _, cs := range sw.Body.List {
+					cl := cs.(*ast.CaseClause)
+					if len(cl.Body) == 0 {
+						allReturn = false
+						continue
+					}
+					if _, isR := cl.Body[len(cl.Body)-1].(*ast.ReturnStmt); !isR {
+						allReturn = false
+					}
+				}
+				defErr = allReturn
+			}
+		}
+	}
+	visitList(fd.Body.List)
 	return
 }
 
